@@ -128,6 +128,7 @@ def run(ctx: Ctx) -> None:
                     tested = None
                     wrote = False
                     parts: set = set()
+                    between: list = []
                     for e2 in p.events[i + 1:]:
                         if e2.kind == "test":
                             for a, v in facts_of(e2.node, bool(e2.pol)):
@@ -141,11 +142,17 @@ def run(ctx: Ctx) -> None:
                                 args = [ast.unparse(a) for a in c2.args]
                                 if len(args) == 2 and (set(args) <= parts or args == [f"{dname}[0]", f"{dname}[1]"]) and args[0] != args[1]:
                                     wrote = True
+                            elif not wrote and tested is not False and not (isinstance(c2.func, ast.Name) and c2.func.id in ("int", "bool", "len", "isinstance")):
+                                between.append(c2)
                     ok = tested is not None and (wrote if tested else True)
                     r.check(ok, key, f.loc(c),
                             f"{short(f.qname)}: after cache.write_block the displaced block `{dname}` is "
                             + ("never tested against None" if tested is None else "not written back on the path where it is not None")
                             + ": an evicted dirty block would be lost", None, ["path assumptions:"] + p.assumptions())
+                    r.check(not between, key + "|then-write-back", f.loc(between[0]) if between else f.loc(c),
+                            f"{short(f.qname)}: `{seg(f, between[0]) if between else ''}` runs between cache.write_block (which may displace a written block) "
+                            "and the write-back of the displaced block; if it raises (a store that crosses a word boundary does), the displaced block is "
+                            "neither resident nor in backing memory", None, ["path assumptions:"] + p.assumptions())
     if sites < 8:
         raise AnalysisError(f"R12.wb: only {sites} (site, path) instances of cache.write_block in the write-back system")
 
